@@ -155,6 +155,29 @@ def run(tier, seed):
             continue
         chk.fail(None, {'clause': 'same-child', 'expected_child': cname, 'expected_er7': want, 'got': o if not o.startswith('ok ') else
                         {'children': f[1], 'er7': vlib.unhexs(f[2]), 'read': f[3], 'delete': f[4]}, **rep}, rep)
+    # a component of a BASE datatype has no named child: the HL7 name of a subcomponent of some other datatype — even one of the same base datatype —
+    # designates nothing there, in any letter case: writing through it is refused and creates nothing (seed C14-i)
+    cneg = []
+    for v in (full if tier == 'quick' else VERSIONS):
+        lib = hl7apy.load_library(v)
+        base = set(lib.BASE_DATATYPES)
+        leaf_comps = sorted(k for k, r in lib.DATATYPES.items() if gen.well_formed_ref(r) and len(r) == 6 and r[0] == 'leaf' and r[2] in base)
+        by_dt = {}
+        for k in leaf_comps:
+            by_dt.setdefault(lib.DATATYPES[k][2], []).append(k)
+        for dt, ks in sorted(by_dt.items()):
+            for CN in rng.sample(ks, min(len(ks), 3)):
+                others = [k for k in ks if k.rsplit('_', 1)[0] != CN.rsplit('_', 1)[0]]
+                for x in rng.sample(others, min(len(others), 2)):
+                    cneg += [(v, 'C', CN, x), (v, 'C', CN, x.lower())]
+    for j, o in zip(cneg, vlib.pmap(impl.addr_neg, cneg)):
+        chk.evals += 1
+        parts = o.split(' ')
+        rep = {'api': 'setattr / delattr on a leaf component through the name of a subcomponent of another datatype', 'version': j[0], 'parent_kind': 'C', 'parent': j[2], 'name': j[3]}
+        # (the plain READ of such a name returns an empty proxy on the unchanged tree: not judged here)
+        if not all(p in ('ChildNotFound', 'ChildNotValid') for p in parts[1:]):
+            chk.fail(None, {'clause': 'negative', 'get_set_del': parts, **rep}, rep)
+    chk.dist['leaf_component_foreign_names'] = len(cneg)
     # a valid spelling on a parent that does not hold the child: there is no child to delete — ChildNotFound, and nothing is created
     dj = rng.sample(jobs, min(len(jobs), 3000 if tier == 'quick' else len(jobs)))
     for j, o in zip(dj, vlib.pmap(impl.del_absent, dj)):
